@@ -1,0 +1,75 @@
+// Verification shim for the global client holder.
+//
+// Only compiled with `--cfg cadence_verif`. `AtomicUsize` here is a
+// pass-through wrapper around the standard type that reports every
+// operation, together with the memory `Ordering` it was given, to the tracer
+// installed through `cadence::verif`. Every operation is reported twice: a
+// `*.pre` point before it is performed (a scheduler may park the thread
+// there) and a point carrying the result right after it.
+
+pub(crate) use std::sync::atomic::Ordering;
+
+fn ord(o: Ordering) -> u64 {
+    match o {
+        Ordering::Relaxed => 0,
+        Ordering::Release => 1,
+        Ordering::Acquire => 2,
+        Ordering::AcqRel => 3,
+        Ordering::SeqCst => 4,
+        _ => 9,
+    }
+}
+
+#[derive(Debug, Default)]
+pub(crate) struct AtomicUsize(std::sync::atomic::AtomicUsize);
+
+impl AtomicUsize {
+    pub(crate) const fn new(v: usize) -> Self {
+        AtomicUsize(std::sync::atomic::AtomicUsize::new(v))
+    }
+
+    fn id(&self) -> usize {
+        self as *const Self as usize
+    }
+
+    pub(crate) fn load(&self, order: Ordering) -> usize {
+        cadence::verif::point("a.load.pre", self.id(), ord(order), 0);
+        let v = self.0.load(order);
+        cadence::verif::point("a.load", self.id(), ord(order), v as u64);
+        v
+    }
+
+    pub(crate) fn store(&self, val: usize, order: Ordering) {
+        cadence::verif::point("a.store.pre", self.id(), ord(order), val as u64);
+        self.0.store(val, order);
+        cadence::verif::point("a.store", self.id(), ord(order), val as u64);
+    }
+
+    pub(crate) fn compare_exchange(
+        &self,
+        current: usize,
+        new: usize,
+        success: Ordering,
+        failure: Ordering,
+    ) -> Result<usize, usize> {
+        let ords = ord(success) << 8 | ord(failure);
+        cadence::verif::point("a.cas.pre", self.id(), ords, (current as u64) << 8 | new as u64);
+        let res = self.0.compare_exchange(current, new, success, failure);
+        let (ok, prev) = match res {
+            Ok(p) => (1u64, p as u64),
+            Err(p) => (0u64, p as u64),
+        };
+        cadence::verif::point("a.cas", self.id(), ords, ok << 16 | prev << 8 | new as u64);
+        res
+    }
+}
+
+/// Marks a read of the holder's cell (reported before the access).
+pub(crate) fn cell_read<T>(cell: *const T) {
+    cadence::verif::point("c.read", cell as usize, 0, 0);
+}
+
+/// Marks a write of the holder's cell (reported before the access).
+pub(crate) fn cell_write<T>(cell: *const T) {
+    cadence::verif::point("c.write", cell as usize, 0, 0);
+}
